@@ -114,8 +114,15 @@ pub fn backlog_far(g: &AGen) -> AGen {
     AGen { maxlen: 120, init_max: 100, vmax: g.vmax.max(200), max_ops: 200, far_runs: true, ..backlog(g) }
 }
 
+/// limits / counts at the edges of `usize` and `isize` ("no limit" is commonly written `usize::MAX`)
+pub fn huge(rng: &mut Rng) -> usize {
+    *rng.pick(&[usize::MAX, usize::MAX - 1, usize::MAX / 2, usize::MAX / 2 + 1, usize::MAX / 2 + 2, usize::MAX - 7])
+}
+pub const HUGE_FROM: usize = 1 << 48;
+
 pub fn gen_lim(rng: &mut Rng, kinds: &[Kind], pks: &[PK], maxn: usize) -> Stage {
-    Stage::Lim { kind: *rng.pick(kinds), pk: *rng.pick(pks), n: rng.below(maxn + 1), queue: rng.chance(1, 2) }
+    let n = if rng.chance(1, 25) { huge(rng) } else { rng.below(maxn + 1) };
+    Stage::Lim { kind: *rng.pick(kinds), pk: *rng.pick(pks), n, queue: rng.chance(1, 2) }
 }
 
 pub const ALL_KINDS: &[Kind] = &[Kind::Head, Kind::Tail, Kind::Skip];
@@ -143,10 +150,31 @@ pub fn gen_adp_history(rng: &mut Rng, chain: Vec<Stage>, batched: bool, g: &AGen
     let n_ops = rng.range(g.min_ops, g.max_ops);
     let dyn_stages: Vec<usize> = chain.iter().enumerate().filter(|(_, s)| s.dynamic()).map(|(i, _)| i + 1).collect();
     let mut ops = vec![];
+    // the limit each dynamic stage was given last (a Tail whose limit is huge is only ever given 0 or another huge
+    // limit next: the known finding F4 makes it emit old-new PopFronts for a decrease beyond the length, which for
+    // a huge `old` cannot be executed - it ends in a capacity overflow or an allocation of terabytes)
+    let mut cur: Vec<usize> = chain
+        .iter()
+        .map(|s| match s {
+            Stage::Lim { pk, n, .. } if !matches!(pk, PK::Dyn | PK::DynParts) => *n,
+            _ => 0,
+        })
+        .collect();
     for _ in 0..n_ops {
         let r = rng.below(100);
         if !dyn_stages.is_empty() && r < g.param_pct {
-            ops.push(AOp::Param(*rng.pick(&dyn_stages), rng.below(model.len() + 3)));
+            let st = *rng.pick(&dyn_stages);
+            let mut val = if rng.chance(1, 16) { huge(rng) } else { rng.below(model.len() + 3) };
+            // (sticky: an observable-backed limit stream skips values that were not polled in between, so after a
+            // huge limit a Tail only ever sees 0 or huge limits)
+            if chain[st - 1].is_tail() && cur[st - 1] >= HUGE_FROM {
+                if val < HUGE_FROM {
+                    val = 0;
+                }
+            } else {
+                cur[st - 1] = val;
+            }
+            ops.push(AOp::Param(st, val));
             continue;
         }
         if !eager && rng.below(100) < g.poll_pct {
